@@ -173,9 +173,21 @@ class LineRunner:
                 self.tag(t)
             if len(self.samples) < 6 and self.n % 11 == 1:
                 self.samples.append({"request": c["line"][:240], "impl": io[:160], "model": mo[:160]})
-            base = mo.replace(" spec=ok", "").replace(" spec=MISMATCH", "")
+            base = mo.replace(" spec=ok", "").replace(" spec=MISMATCH", "").replace(" spec=REJECTED", "")
             if "spec=ok" in mo:
                 self.spec_checked += 1
+            if "spec=REJECTED" in mo:
+                self.mismatch.append((c, io, mo, "the model verifier rejects the model prover's proof"))
+            # implementation-only route flags (own verifier / compressed route / serialized route)
+            flags = dict(t.split("=", 1) for t in io.split(" ") if t.split("=", 1)[0] in ("own", "cmp", "ser") and "=" in t)
+            if flags:
+                io = " ".join(t for t in io.split(" ") if t.split("=", 1)[0] not in ("own", "cmp", "ser"))
+                for kf, vf in flags.items():
+                    self.tag("route-%s=%s" % (kf, vf.split(":")[0]))
+                    if vf != "ok":
+                        self.impl_fail.append((c, io, {"own": "the prover's proof is rejected by its own verifier",
+                                                       "cmp": "keys from the compressed description differ from direct compilation",
+                                                       "ser": "prover/verifier decoded from their bytes behave differently"}[kf] + " (%s)" % vf))
             if io.startswith("panic") or io.startswith("crash"):
                 if not c.get("panic_ok") or base != io:
                     self.impl_fail.append((c, io, "implementation panicked"))
@@ -186,6 +198,10 @@ class LineRunner:
                 self.mismatch.append((c, io, mo, "outputs differ"))
             if c.get("expect") is not None and io != c["expect"]:
                 self.impl_fail.append((c, io, "property-level expectation is %s" % c["expect"][:120]))
+            if c.get("expect_prefix") is not None and not io.startswith(c["expect_prefix"]):
+                self.impl_fail.append((c, io, "property-level expectation is %s…" % c["expect_prefix"][:120]))
+            if c.get("expect_proof") and not io.startswith("proof="):
+                self.impl_fail.append((c, io, "a satisfied circuit within the SRS capacity must prove"))
 
     def report(self):
         ctx = self.ctx
